@@ -197,6 +197,67 @@ def run(repo: Repo, chk: Check, thorough: bool = False) -> None:
                g.loc, used_at=where)
     chk.require('R08.4', 4)
 
+    # ---------------------------------------------------------------- R08.7 the fallback context owns the docstring
+    n7 = 0
+    for q in sorted(fallbacks):
+        g = repo.func(q)
+        ps = [p.arg for p in g.params()]
+        if len(ps) < 3 or isinstance(g.node, ast.Lambda):
+            continue
+        ctxp = ps[2]
+        reads_doc = any(isinstance(n, ast.Attribute) and n.attr == 'docstring' and dotted(n.value) == ctxp for n in g.walk())
+        if not reads_doc:
+            continue
+        for s in cg.callers.get(safe.qn, []):
+            if not isinstance(s.node, ast.Call):
+                continue
+            fb = next((kw.value for kw in s.node.keywords if kw.arg == 'fallback'), s.node.args[3] if len(s.node.args) > 3 else None)
+            if fb is None or g not in cg._funcs_of_value(fb, s.func):
+                continue
+            ctx = next((kw.value for kw in s.node.keywords if kw.arg == 'ctx'), s.node.args[2] if len(s.node.args) > 2 else None)
+            n7 += 1
+            ok = False
+            why = 'context argument not found'
+            if isinstance(ctx, ast.Name):
+                srcs = []
+                for n in s.func.walk():
+                    if isinstance(n, ast.Assign):
+                        for t in n.targets:
+                            names = [t] if isinstance(t, ast.Name) else list(t.elts) if isinstance(t, (ast.Tuple, ast.List)) else []
+                            if any(isinstance(x, ast.Name) and x.id == ctx.id for x in names):
+                                srcs.append(n.value)
+                ok = bool(srcs) and all(isinstance(v, ast.Call) and call_name(v) in ('ensure_parsed_docstring', '_get_parsed_summary')
+                                        or (isinstance(v, ast.Attribute) and v.attr == 'parent') for v in srcs)
+                why = (f'`{ctx.id}` is the docstring source returned by {"/".join(sorted({call_name(v) for v in srcs if isinstance(v, ast.Call)}))}'
+                       if ok else f'`{ctx.id}` is not the object that owns the docstring: {q.split(".")[-1]} reads ctx.docstring, so an '
+                       'inherited docstring would be replaced by "broken" instead of shown as plain text')
+            chk.ob('R08.7', f'{s.func.qn} :: safe_to_stan(..., ctx={norm(ctx) if ctx is not None else "?"}, fallback={q.split(".")[-1]})', ok, why, s.loc)
+    if n7 < 1:
+        chk.error('R08.7: no safe_to_stan call with a fallback that reads ctx.docstring found (1 confirmed by hand)')
+
+    # ---------------------------------------------------------------- R08.8 epytext: any fatal error makes the parser give up
+    ep = repo.func('pydoctor.epydoc.markup.epytext.parse')
+    errp = 'errors' if 'errors' in [p.arg for p in ep.params()] else None
+    fatal_calls = [c for c in calls_in(ep) if call_name(c) == 'is_fatal' and isinstance(c.func, ast.Attribute)]
+    if errp is None or not fatal_calls:
+        chk.error('R08.8: epytext.parse no longer has an `errors` parameter / an is_fatal() test')
+    for c in fatal_calls:
+        recv = c.func.value  # type: ignore[attr-defined]
+        ok = False
+        why = f'is_fatal() is applied to `{norm(recv)}`, not to every element of `{errp}`: a fatal error after a non-fatal one is ignored'
+        if isinstance(recv, ast.Name):
+            for p in parents(c):
+                if isinstance(p, (ast.GeneratorExp, ast.ListComp, ast.SetComp)):
+                    for gen in p.generators:
+                        if isinstance(gen.target, ast.Name) and gen.target.id == recv.id and isinstance(gen.iter, ast.Name) and gen.iter.id == errp:
+                            ok = True
+                if isinstance(p, ast.For) and isinstance(p.target, ast.Name) and p.target.id == recv.id and \
+                        isinstance(p.iter, ast.Name) and p.iter.id == errp:
+                    ok = True
+            if ok:
+                why = f'quantifies over the whole `{errp}` list'
+        chk.ob('R08.8', f'pydoctor.epydoc.markup.epytext.parse :: {norm(c)}', ok, why, repo.loc(ep.mod, c))
+
     # ---------------------------------------------------------------- R08.5
     gs = repo.func(f'{PD}.get_summary')
     trs = [n for n in gs.walk() if isinstance(n, ast.Try)]
